@@ -170,6 +170,15 @@ package core
 //@   callsite waitOnChan on_the_targets_own_channel [C04]: arg_ch == target.finishedBuilding
 //@   returnsite waits [C04]: called("waitOnChan")
 //
+// The callback handed to resolveDependencies: EVERY dependency it is called for marks the round as "not final" (so
+// the loop goes round again and waits for it) before the dependency is queued — whatever state it is in.
+//@ func (BuildState).queueTargetAsync.lit#1
+//@   opt nopanic=off
+//@   opt panics=allowed
+//@   opt precall=off
+//@   callsite (BuildState).queueResolvedTarget after_marking_the_round [C04]: called("(Bool).Store") && arg_target == t
+//@   callsite (Bool).Store marks_true [C04]: arg_val
+//@   returnsite every_resolved_dependency_marks_the_round [C04]: called("(Bool).Store")
 //@ func (BuildState).queueTargetAsync
 //@   requires state != nil && target != nil
 //@   opt nopanic=off
@@ -322,6 +331,7 @@ package core
 //@ func (cycleDetector).Check
 //@   requires c != nil
 //@   invariant "range c.graph.AllTargets()" empty_stack: forall t *BuildTarget :: !in(t, partial)
+//@   invariant "range c.graph.AllTargets()" each_check_starts_with_nothing_marked_complete [C06]: idx == 0 ==> (forall t *BuildTarget :: !in(t, complete))
 //@   ensures genuine [C06]: result != nil ==> len(result.Cycle) >= 1 && chain(result.Cycle) && \
 //@      depOf(result.Cycle[len(result.Cycle) - 1], result.Cycle[0])
 
